@@ -67,6 +67,11 @@ CHECKS = {
   text="Model checking by trace validation: to_bits(n)/from_bits for every width 1..b+2 and the default and every v in -2..2^n+1 at global bitlengths 2..4 (accepted iff 0<=v<2^n at the REQUESTED width, exact bits, round trip); packers over 17 schemas (bool, intmod 2..9, lists, repetitions, nesting, empty) x in-range and out-of-range leaf vectors x plain / secret-int / secret-bool inputs (bitlen, pack bits, unpack round trip, rejection of out-of-range plain values) judged by TLC with Pack.tla; the width actually enforced in-circuit by to_bits(n) / assert_positive(bits=n) is decided by adversarial search with free operands.",
   note="Finite schema list and leaf windows; structured values compared as leaf sequences.",
   design="5/C16"),
+ "C17": dict(
+  technique="TLC evaluation of SnarkDeco.tla (Inv_Pub, Inv_Inner, Inv_Ret, Inv_Kw) on the ordered public vector recorded per decorated call + Soundness.tla search tying outputs to computed wires",
+  text="Model checking by trace validation: ~650 decorated calls (1-3 arguments from 12 structure shapes incl. ints, floats, bools, strings, lists, tuples, dicts, nesting, empty; 5 bodies; sequences of 3 calls in one run; keyword arguments) are run on the real code; TLC derives from the argument and result leaf sequences the exact ordered list of public values that must have been appended during the call and compares, checks what the body saw, what the caller got back and the refusal of keyword arguments; output wires are shown to be forced to the computed values by adversarial search with the argument wires fixed.",
+  note="Finite shape list; exactly representable floats.",
+  design="5/C17"),
 }
 
 NOT_YET = "check not built yet in this round (planned, see DESIGN.md section 5)"
